@@ -1251,6 +1251,9 @@ package avro
 //@   ensures [C05,C13,C20,C06] (len(schema.Union) == 2 && (streq(schema.Union[0].Type, "null") || streq(schema.Union[1].Type, "null"))) ==> built(res, err, typ)
 //@   ensures [assume] built(res, err, typ)
 //@   uses kind_sizes(data(typ))
+//     C20: the non-null branch of a nullable union is obtained from buildCodec for the same Go type (so a registration
+//     for that type governs inside the union, whatever the branch's schema type is)
+//@   ensures [C20] (len(schema.Union) == 2 && (streq(schema.Union[0].Type, "null") || streq(schema.Union[1].Type, "null")) && err == nil) ==> tlen() == 1 && tkind(0) == evBUILD && (typ != nil ==> tb(0) == uint64(data(typ))) && (typ == nil ==> ta(0) == 0)
 //     the branch table of the stub codec for general unions is filled in place (fresh memory)
 //@   requires [C12] regFree()
 //@   ensures [C12] regFree()
